@@ -70,7 +70,23 @@ class ItemOnly:
         return self._d[key]
 
 
-RENDER_ARGS = {"a": "A", "kw": "K", "n": "N",
+class _Gone:
+    pass
+
+
+def _dead_proxy():
+    import weakref
+    o = _Gone()
+    p = weakref.proxy(o)
+    del o
+    return p
+
+
+# (zbig / zdead are never used by a template: they are render arguments
+# that an error message cannot show - an integer beyond the int -> str
+# conversion limit, a weak reference proxy whose referent is gone)
+RENDER_ARGS = {"zbig": 10 ** 5000, "zdead": _dead_proxy(),
+               "a": "A", "kw": "K", "n": "N",
                "dd": {"get": "G", "keys": "K", "items": "I", "x": 1,
                       "ident": _ident},
                "io": ItemOnly({"x": 1, "ident": _ident})}
